@@ -144,6 +144,9 @@ def generate(seed: int, tier: str) -> dict:
     cfg = gen.swarm(st("swarm"), tier)
     cfg["quoted"] = False
     cfg["refs"] = False
+    # `source[k]` sees one binding per name: a name defined by an explicit set *and* by attrpath bindings is outside
+    # the dictionary model (known finding KF-mixed-family-mapping-C14, its witness is replayed on every run)
+    cfg["mixed_family"] = False
     cfg["inherit"] = cfg["inherit"] and st("swarm").random() < 0.3
     cfg["lets"] = st("swarm").choice([0, 0, 0, 1, 1, 2])
     from .props import MAX_DOC_LINES
@@ -293,6 +296,11 @@ def _alias_model_from_text(text: str):
     return None, target, scope, {"alias": name}
 
 
+def _has_mixed_family(members) -> bool:
+    explicit = {m[1][0] for m in members if m[0] == "b" and len(m[1]) == 1}
+    return any(m[0] == "b" and len(m[1]) > 1 and m[1][0] in explicit for m in members)
+
+
 def _beyond_mapping_reach(dec) -> bool:
     """`source[k]` reaches a call argument only when it is a set literal (possibly in parentheses); the CLI helpers
     also descend a lambda or a nested call written as argument (`f (x: { … })`) - the mapping API does not."""
@@ -349,6 +357,8 @@ def execute(case: dict):
     alias = info.get("alias")
     shape_facts = {"wrappers": dec.shape.kinds(), "nlayers": len(dec.layers)} if dec is not None else {"wrappers": ["alias"], "nlayers": 1}
     shape_facts["alias"] = bool(alias)
+    # a name defined both by an explicit set and by attrpath bindings (`f = { … }; f.q = 1;`)
+    shape_facts["mixed_family"] = bool(dec is not None and _has_mixed_family(dec.target))
     attrpath_seen = False  # an earlier step of this history touched an attrpath-derived binding
     for i, op in enumerate(ops):
         if op["op"] == "restart":
@@ -400,7 +410,12 @@ def execute(case: dict):
             elif op["op"] == "set":
                 if isinstance(op["value"], dict) and list(op["value"]) == ["from"]:
                     fk = op["value"]["from"]
-                    cont[ks[-1]] = world.container(on, fk)[fk[-1]]
+                    try:
+                        taken = world.container(on, fk)[fk[-1]]
+                    except Exception:  # noqa: BLE001 - the source of the value is gone (shrunk case): nothing to assign
+                        bump("skip:value_source_missing")
+                        continue
+                    cont[ks[-1]] = taken
                     bump("probe:value_from_same_document")
                 else:
                     cont[ks[-1]] = to_python(op["value"])
